@@ -86,7 +86,7 @@ def chunks(tier):
         out += [("F", n, me, pats, lo, min(lo + 16, len(masks))) for lo in range(0, len(masks), 16)]
     out += [("B", i, j) for i in range(3) for j in range(3)]
     out += [("BI", i) for i in range(3)]
-    out += [("D", "assoc"), ("D", "dissoc")]
+    out += [("D", "assoc"), ("D", "dissoc"), ("X",)]
     return out
 
 
@@ -462,6 +462,90 @@ def check_dimer(res, direction, k, A0, N0):
     res.outcomes["D %s: %s" % (direction, "ok" if ok else "WRONG")] += 1
 
 
+# ------------------------------------------------------------------------------------------------- layer X: histories and unusual participants
+def check_rebuild(res, k1, k2):
+    """A -> B integrated, the rate constant of the live Reaction re-assigned, the system built and integrated again: the
+    second trajectory is the exact solution with the NEW constant"""
+    text = "C6H12O6 -> alpha-C6H12O6; %r" % k1
+    case = dict(layer="X", what="rebuild", k1=k1, k2=k2)
+    res.states += 1
+    res.nontrivial += 1
+    res.transitions += 2
+    from chempy import ReactionSystem
+    from chempy.kinetics.ode import get_odesys
+
+    try:
+        rsys = ReactionSystem.from_string(text)
+        c0 = {"C6H12O6": 1.0, "alpha-C6H12O6": 0.25}
+        for gen, k in enumerate((k1, k2)):
+            if gen:
+                rsys.rxns[0].param = k
+            odesys, extra = get_odesys(rsys)
+            result = odesys.integrate(list(TOUT), dict(c0), atol=1e-12, rtol=1e-12, nsteps=NSTEPS)
+            exact = [{"C6H12O6": math.exp(-k * t), "alpha-C6H12O6": 1.25 - math.exp(-k * t)} for t in TOUT]
+            res.evaluations += 1
+            if not _check_rows(res, "X-rebuild", dict(case, gen=gen), "[%s] build #%d with k=%r" % (text, gen + 1, k), list(odesys.names), c0, result, exact, {"C6H12O6": 1.25, "alpha-C6H12O6": 1.25}):
+                res.outcomes["X rebuild WRONG"] += 1
+                return
+        res.outcomes["X rebuild ok"] += 1
+    except Exception as e:
+        _viol(res, "C06|X-rebuild|pipeline|raises", "[%s] rebuilt with k=%r raised %s: %s" % (text, k2, type(e).__name__, e), case, "EXC %s" % type(e).__name__, None)
+
+
+def check_contexts(res, ka, kb, order):
+    """two parsing contexts, each customised with its own named constant, used in either order: every text is read with
+    the constants of the context it was given"""
+    from chempy import ReactionSystem
+    from chempy.kinetics.ode import get_odesys
+    from chempy.util.parsing import get_parsing_context
+
+    case = dict(layer="X", what="contexts", ka=ka, kb=kb, order=order)
+    res.states += 1
+    res.nontrivial += 1
+    res.transitions += 2
+    try:
+        ctx = {}
+        for name, k in (("a", ka), ("b", kb)):
+            ctx[name] = get_parsing_context()
+            ctx[name]["kfirst"] = k
+        c0 = {"C6H12O6": 1.0, "alpha-C6H12O6": 0.0}
+        for name in order:
+            k = dict(a=ka, b=kb)[name]
+            rsys = ReactionSystem.from_string("C6H12O6 -> alpha-C6H12O6; kfirst", rxn_parse_kwargs=dict(globals_=ctx[name]))
+            odesys, extra = get_odesys(rsys)
+            result = odesys.integrate(list(TOUT), dict(c0), atol=1e-12, rtol=1e-12, nsteps=NSTEPS)
+            exact = [{"C6H12O6": math.exp(-k * t), "alpha-C6H12O6": 1 - math.exp(-k * t)} for t in TOUT]
+            res.evaluations += 1
+            if not _check_rows(res, "X-contexts", dict(case, which=name), "[C6H12O6 -> alpha-C6H12O6; kfirst] read in context %s (kfirst=%r)" % (name, k), list(odesys.names), c0, result, exact, {"C6H12O6": 1.0, "alpha-C6H12O6": 1.0}):
+                res.outcomes["X contexts WRONG"] += 1
+                return
+        res.outcomes["X contexts ok"] += 1
+    except Exception as e:
+        _viol(res, "C06|X-contexts|pipeline|raises", "named constant in a customised parsing context raised %s: %s" % (type(e).__name__, e), case, "EXC %s" % type(e).__name__, None)
+
+
+def check_unbounded_reactant(res, k, e0, oh0):
+    """e-(aq) + OH -> OH- : the hydrated electron has no elements, hence no elemental upper bound (inf); when it is the
+    limiting reactant the safe Euler step is set by ITS depletion"""
+    text = "e-(aq) + OH -> OH-; %r" % k
+    case = dict(layer="X", what="unbounded", k=k, e0=e0, oh0=oh0)
+    res.states += 1
+    res.nontrivial += 1
+    res.transitions += 1
+    res.evaluations += 1
+    try:
+        rsys, odesys, extra = _pipeline(text)
+        names = list(odesys.names)
+        c0 = {"e-(aq)": e0, "OH": oh0, "OH-": 1e-7}
+        r = k * e0 * oh0
+        f = {"e-(aq)": -r, "OH": -r, "OH-": r}
+        upper = {"e-(aq)": float("inf"), "OH": oh0 + 1e-7, "OH-": oh0 + 1e-7}
+        cls = _check_euler(res, "X-unbounded", case, "[%s]" % text, extra["max_euler_step_cb"], names, c0, f, upper)
+        res.outcomes["X euler with a composition-free reactant: limited by %s" % cls] += 1
+    except Exception as e:
+        _viol(res, "C06|X-unbounded|pipeline|raises", "[%s] raised %s: %s" % (text, type(e).__name__, e), case, "EXC %s" % type(e).__name__, None)
+
+
 # ------------------------------------------------------------------------------------------------- driver
 def run_chunk(chunk, tier):
     res = Result()
@@ -477,6 +561,16 @@ def run_chunk(chunk, tier):
         for a, b, c in itertools.product(AB, AB, CC):
             check_bimolecular(res, KF[i], KB[j], a, b, c, True, selfcheck=(c == CC[1]))
         res.sample(dict(layer="B", kf=KF[i], kb=KB[j], lattice="a,b in %s; c in %s; t in %s" % (AB, CC, TOUT)), limit=1)
+    elif chunk[0] == "X":
+        for k1, k2 in itertools.permutations((0.5, 3.0, 40.0), 2):
+            check_rebuild(res, k1, k2)
+        for ka, kb in itertools.permutations((0.5, 3.0, 40.0), 2):
+            for order in ("ab", "ba", "aba"):
+                check_contexts(res, ka, kb, order)
+        for k in (3e10, 1e8):
+            for e0, oh0 in ((2e-7, 4e-5), (4e-5, 2e-7), (1e-6, 1e-6)):
+                check_unbounded_reactant(res, k, e0, oh0)
+        res.sample(dict(layer="X", slices=["rebuild after re-assigning a rate constant", "two customised parsing contexts", "reactant without elemental bound"]), limit=1)
     elif chunk[0] == "D":
         _, direction = chunk
         for k in (0.5, 3.0, 40.0):
@@ -495,7 +589,14 @@ def run_chunk(chunk, tier):
 
 def replay(case):
     res = Result()
-    if case["layer"] == "D":
+    if case["layer"] == "X":
+        if case["what"] == "rebuild":
+            check_rebuild(res, case["k1"], case["k2"])
+        elif case["what"] == "contexts":
+            check_contexts(res, case["ka"], case["kb"], case["order"])
+        else:
+            check_unbounded_reactant(res, case["k"], case["e0"], case["oh0"])
+    elif case["layer"] == "D":
         check_dimer(res, case["direction"], case["k"], case["A0"], case["N0"])
     elif case["layer"] == "F":
         check_first_order(res, case["n"], case["mask"], case["p"], case["limited"], only_y0=case.get("y0"))
